@@ -141,6 +141,7 @@ THEOREMS = {
     ]),
     "C12": dict(module="HH.Props.C12", trusted=MODEL_TRUST + SIMD_TRUST, theorems=[
         ("HH.C12.finish_is_hash_of_written", "∀ back end key writes: finish() after the writes = 64-bit hash of the concatenation"),
+        ("HH.C12.finish_is_spec", "finish after any writes on any back end = Spec.hash64 key (concatenation)"),
         ("HH.C12.finish_pure", "finish leaves the world unchanged (repeatable, interleavable)"),
         ("HH.C12.write_consumes_all", "io::Write::write appends the whole buffer and reports its full length"),
         ("HH.C12.flush_noop", "flush = Ok(()) and no state change"),
